@@ -921,3 +921,36 @@ Lemma scoping_refuted :
   exists g i, generate_type last_segment w_target all_fixed w_shadow_ti = TGen g i /\
               gtype_shadowed g = true /\ shadow_type w_target w_shadow_ti = true.
 Proof. eexists. eexists. split; [vm_compute; reflexivity|]. split; vm_compute; reflexivity. Qed.
+
+(* ================================================================================================================
+   8. a non-trivial instance for the Examples of Props/C18.v
+   ================================================================================================================ *)
+
+Definition ex_time : bytes := bs "time".
+Definition ex_fields : list field :=
+  [ mk_field (bs "A") (TBasic (bs "int")) (of_string "json:""a.b"" yaml:""x""");
+    mk_field (bs "B") (TSlice (TBasic (bs "string"))) (bs "x.G[int @q %d 'r'");
+    mk_field (bs "C") (TMap (TBasic (bs "string")) (TNamed w_origin (bs "Inner") [])) [];
+    mk_field (bs "D") (TPtr (TNamed ex_time (bs "Duration") [])) (bs "d");
+    mk_field (bs "I") (TNamed w_origin (bs "Inner") []) (of_string "json:""i""");
+    mk_field (bs "E") TError [];
+    mk_field (bs "G") TAny (bs "g") ].
+Definition ex_ti : tinput :=
+  mk_tinput (bs "x") true [(bs "y", RSel (Some (w_origin, bs "Inner"))); (bs "x", RSel (Some (w_origin, bs "T")))]
+            (Some ex_fields) [bs "B"; bs "Nope"] [of_string "I:Y json:""ii"" yaml:""q.r"""; bs "bad"; bs "Nope:string"].
+
+
+Lemma example_hypotheses :
+  NoDup (map f_name ex_fields) /\ NoDup (map fst (ti_group ex_ti)) /\ shadow_type w_target ex_ti = false /\
+  own_origin ex_ti = Some (w_origin, bs "T") /\
+  (forall f t0 rest, In f ex_fields -> retained (ti_omit ex_ti) f = true ->
+     lookup (f_name f) (replace_map (ti_replace ex_ti) []) = Some (t0 :: rest) -> ref_modelled last_segment w_target t0 = true).
+Proof.
+  split; [repeat constructor; cbn; intuition discriminate|].
+  split; [repeat constructor; cbn; intuition discriminate|].
+  split; [vm_compute; reflexivity|]. split; [vm_compute; reflexivity|].
+  intros f t0 rest Hin _ Hl. cbn in Hin.
+  repeat (destruct Hin as [E|Hin]; [subst f; vm_compute in Hl; try discriminate; inversion Hl; subst; vm_compute; reflexivity|]).
+  contradiction.
+Qed.
+
